@@ -70,8 +70,8 @@ func init() {
 	addProperty(&Property{
 		ID:         "C14",
 		Title:      "Observing the IR never changes it",
-		Decided:    "observers (printing, Type, Ident, Operands, Succs, Sig, ID, IsUnnamed, MDAttachments) write no shared memory other than ID fields, result-type caches and successor caches — no observer sorts, appends to or normalises an IR field (OBS-1); result-type caches are already filled when an observer runs (RACE-3); no numbering routine fails depending on IDs an earlier observation assigned (OBS-4); renaming clears the ID (OBS-5).",
-		NotDecided: "equality of the final texts for every history as such; staleness of the successor cache after a target is replaced through an operand slot (reported under C15 when OPS-4 is armed).",
+		Decided:    "observers (printing, Type, Ident, Operands, Succs, Sig, ID, IsUnnamed, MDAttachments) write no shared memory other than ID fields and result-type caches — no observer sorts, appends to or normalises an IR field (OBS-1); result-type caches are already filled when an observer runs (RACE-3); no numbering routine fails depending on IDs an earlier observation assigned (OBS-4); renaming clears the ID (OBS-5).",
+		NotDecided: "equality of the final texts for every history as such.",
 		Technique:  "static analysis: SSA write-effect closure from the observer entry points + go/ast rules on the numbering routines (OBS-1, OBS-4, OBS-5, RACE-3)",
 		Rules:      []RuleUse{{Rule: "OBS-1"}, {Rule: "OBS-4"}, {Rule: "OBS-5"}, {Rule: "RACE-3"}, {Rule: "MD-ASSIGN"}},
 	})
